@@ -203,3 +203,27 @@ func checkC10(c *Ctx) {
 	checkHandlerCallers(c)
 	checkEventPathSingleSender(c)
 }
+
+func init() {
+	props = append(props,
+		propSpec{ID: "C18", Level: "other", Run: checkC18,
+			Explanation: "Shape rules over the SSA paths of every Accept and constructor in package filter: Null/All constants, Not = negation of the child on the same object, And/Or = fold over the children with the right early exit and empty-list default, NSName routing (both fields set → fullset, else partials) and its per-entry wildcard table, selector filters = exactly selector.Matches(labels.Set(obj.GetLabels())), Labels/LabelSelector/Selector constructor chains, nsname helpers; every Accept is free of stores, channel operations and goroutines.",
+			Assumptions: []string{"Kubernetes label-selector semantics are delegated to k8s.io/apimachinery (trusted)", "NSName entries with both fields empty are outside the contract"}},
+		propSpec{ID: "C17", Level: "other", Run: checkC17,
+			Explanation: "For every type implementing ComparableFilter (enumerated from the type-checked program by method set): Equals returns true only after asserting `other` to the receiver's own type (or DeepEqual of the whole receiver), every part of the receiver that Accept reads is compared with a trusted deep comparator / the child's Equals / == on scalars pairing the same field of both sides, Accept is pure; FiltersEqual's nil/comparable table; compareFilterList checks the lengths and every index with no overwritten accumulator; workload filters sort a copy of their sources before building (C19 rule).",
+			Assumptions: []string{"reflect.DeepEqual on labels.Selector internals is trusted", "completeness of equality is not required"}})
+}
+
+func checkC18(c *Ctx) {
+	checkCombinators(c)
+	c.floor("T-SHAPE(Accept)", 8, "null, all, not, and, or, nsName x3, selector")
+	c.floor("T-SHAPE(ctor)", 9, "Null, All, Not, And, Or, NSName, Selector, Labels, LabelSelector, nsname x2")
+	c.floor("T-PURE(Accept)", 7, "7 Accept methods")
+}
+
+func checkC17(c *Ctx) {
+	checkFilterEquality(c)
+	c.floor("T-COVERS(Equals)", 11, "10 comparable filter types + enumeration")
+	c.floor("T-TABLE(FiltersEqual)", 3, "nil/nil, one nil, comparable, not comparable")
+	c.floor("T-TABLE(compareFilterList)", 5, "length check + 5 cases")
+}
